@@ -150,7 +150,11 @@ VNode gen_root(Entropy &e) {
             int v = int((e.below(6) * 7 + i * 5) % 42) + int(i) * 42; // distinct by construction (entropy may be exhausted)
             used.push_back(v);
             VNode x;
-            if (kind == 0) {
+            if (kind == 0 && g_gkey[1] != 0 && (c & 1) != 0) {
+                // alias == 2: signed integers of both signs (built through the API they are all of the signed kind)
+                x.k = VK::Int;
+                x.i = int64_t(v) - 100;
+            } else if (kind == 0) {
                 x.k = VK::UInt;
                 x.u = uint64_t(v);
             } else if (kind == 1) {
